@@ -226,7 +226,10 @@ MUTANTS = [('opt_default_always', ('Result', 'Unchanged', 'Decides')), ('dict_tr
            ('type_keys_required', ('Decides',)),                         # type / object catch-all keys are optional
            ('set_family_loose', ('Decides', 'ErrClass')),                # set vs frozenset patterns
            ('tuple_length_unchecked', ('Decides',)),                     # tuples are fixed-length
-           ('unorderable_is_rejection', ('ErrClass',))]                  # unorderable operands
+           ('unorderable_is_rejection', ('ErrClass',)),                  # unorderable operands
+           ('callable_some_exceptions', ('ErrClass',)),                  # whatever a callable raises is a rejection
+           ('cmp_by_complement', ('Decides',))]                          # partial orders (sets): > is not "not <="
+
 
 
 def main(tier, seed):
